@@ -247,11 +247,12 @@ func (fc *FC) Recurrence(r *RF) (init, next *RF) {
 	}
 	pfc := fc.X.phiFC[at.ID]
 	vals, preds := pfc.Ctx.PhiLiveEdges(p)
+	conflict := false
 	for i, v := range vals {
 		rv := pfc.Val(v)
 		if pfc.Ctx.Dominates(p.Block(), preds[i]) {
 			if next != nil && !next.Equal(rv) {
-				anchorFail("several different back-edge values for %s", at.Name)
+				conflict = true
 			}
 			next = rv
 		} else {
@@ -261,10 +262,135 @@ func (fc *FC) Recurrence(r *RF) (init, next *RF) {
 			init = rv
 		}
 	}
+	if conflict {
+		next = pfc.backEdgeValue(p)
+		if next == nil {
+			anchorFail("several different back-edge values for %s and no gating function", at.Name)
+		}
+	}
 	if init == nil || next == nil {
 		anchorFail("%s is not a loop-header phi", at.Name)
 	}
 	return
+}
+
+func sameLoop(a, b *Loop) bool {
+	if a == nil || b == nil {
+		return a == nil && b == nil
+	}
+	return a.Header == b.Header
+}
+
+// backEdgeValue: gated value carried around the loop into header phi p when
+// several latches carry different values. Inner loops are stepped over
+// through their single exit.
+func (fc *FC) backEdgeValue(p *ssa.Phi) *RF {
+	s := fc.X.S
+	h := p.Block()
+	var loop *Loop
+	for _, l := range fc.Ctx.Loops() {
+		if l.Header == h {
+			loop = l
+		}
+	}
+	if loop == nil {
+		return nil
+	}
+	edgeVal := map[int]*RF{}
+	vals, preds := fc.Ctx.PhiLiveEdges(p)
+	for i, pr := range preds {
+		if loop.Body[pr.Index] {
+			edgeVal[pr.Index] = fc.Val(vals[i])
+		}
+	}
+	inner := map[int]*Loop{}
+	for _, l := range fc.Ctx.Loops() {
+		if l.Header != h && loop.Body[l.Header.Index] {
+			inner[l.Header.Index] = l
+		}
+	}
+	memo := map[int]*RF{}
+	visiting := map[int]bool{}
+	fail := false
+	var V func(b *ssa.BasicBlock) *RF
+	step := func(b *ssa.BasicBlock, k int) *RF {
+		succ := b.Succs[k]
+		if succ == h {
+			return edgeVal[b.Index]
+		}
+		if !loop.Body[succ.Index] {
+			return s.Bottom()
+		}
+		return V(succ)
+	}
+	V = func(b *ssa.BasicBlock) *RF {
+		if r, ok := memo[b.Index]; ok {
+			return r
+		}
+		if visiting[b.Index] {
+			fail = true
+			return s.Bottom()
+		}
+		visiting[b.Index] = true
+		defer delete(visiting, b.Index)
+		var r *RF
+		if il, ok := inner[b.Index]; ok && b != h {
+			// step over the inner loop through its single exit target
+			exits := map[int]*ssa.BasicBlock{}
+			for bi := range il.Body {
+				for _, sc := range fc.Ctx.LiveSuccs(fc.Fn.Blocks[bi]) {
+					if !il.Body[sc.Index] {
+						exits[sc.Index] = sc
+					}
+				}
+			}
+			if len(exits) != 1 {
+				fail = true
+				return s.Bottom()
+			}
+			for _, e := range exits {
+				if e == h || !loop.Body[e.Index] {
+					fail = true
+					return s.Bottom()
+				}
+				r = V(e)
+			}
+			memo[b.Index] = r
+			return r
+		}
+		switch t := b.Instrs[len(b.Instrs)-1].(type) {
+		case *ssa.Jump:
+			r = step(b, 0)
+		case *ssa.If:
+			var tv, fv *RF
+			if fc.Ctx.EdgeLive(b, 0) {
+				tv = step(b, 0)
+			}
+			if fc.Ctx.EdgeLive(b, 1) {
+				fv = step(b, 1)
+			}
+			switch {
+			case tv == nil || s.isBottom(tv):
+				r = fv
+			case fv == nil || s.isBottom(fv):
+				r = tv
+			default:
+				r = s.Ite(fc.Val(t.Cond), tv, fv)
+			}
+			if r == nil {
+				r = s.Bottom()
+			}
+		default:
+			r = s.Bottom()
+		}
+		memo[b.Index] = r
+		return r
+	}
+	r := V(h)
+	if fail || r == nil || s.isBottom(r) {
+		return nil
+	}
+	return r
 }
 
 // FindFn: atoms named `name` occurring (deeply) in r.
@@ -309,7 +435,11 @@ func (fc *FC) edgeCond(p, b *ssa.BasicBlock) *RF {
 // ReachCond: the condition (over values computed in the loop-free prefix of
 // the function) under which block b is reached. Fails when b is inside or
 // after a loop.
-func (fc *FC) ReachCond(b *ssa.BasicBlock) *RF {
+func (fc *FC) ReachCond(b *ssa.BasicBlock) *RF { return fc.ReachCondFrom(fc.Fn.Blocks[0], b) }
+
+// ReachCondFrom: condition under which control, being at `start` (which must
+// dominate b), reaches b; the region in between must be loop-free.
+func (fc *FC) ReachCondFrom(start, b *ssa.BasicBlock) *RF {
 	memo := map[int]*RF{}
 	inLoop := map[int]bool{}
 	for _, l := range fc.Ctx.Loops() {
@@ -325,16 +455,25 @@ func (fc *FC) ReachCond(b *ssa.BasicBlock) *RF {
 		if depth > 200 {
 			anchorFail("reach condition too deep")
 		}
-		if b.Index == 0 {
+		if b == start {
 			return fc.X.S.True()
 		}
-		if inLoop[b.Index] {
+		if b.Index == 0 {
+			return fc.X.S.False()
+		}
+		if inLoop[b.Index] && !(inLoop[start.Index] && sameLoop(fc.Ctx.LoopOf(b), fc.Ctx.LoopOf(start))) {
 			anchorFail("%s: block %d is inside a loop; no loop-free reach condition", fc.X.W.FuncName(fc.Fn), b.Index)
 		}
 		acc := fc.X.S.False()
 		for _, p := range fc.Ctx.LivePreds(b) {
-			if inLoop[p.Index] {
+			if !fc.Ctx.Dominates(start, p) {
+				continue
+			}
+			if inLoop[p.Index] && p != start && !(inLoop[start.Index] && sameLoop(fc.Ctx.LoopOf(p), fc.Ctx.LoopOf(start))) {
 				anchorFail("%s: block %d is reached from a loop", fc.X.W.FuncName(fc.Fn), b.Index)
+			}
+			if fc.Ctx.Dominates(b, p) {
+				continue // back edge
 			}
 			acc = fc.X.S.Or(acc, fc.X.S.And(rc(p, depth+1), fc.edgeCond(p, b)))
 		}
@@ -600,4 +739,64 @@ func (b *B) LoopSystem(rule, construct, where string, fc *FC, from *RF, env *Spe
 	}
 	b.R.OK(rule, construct, where, fmt.Sprintf("%d recurrences (init and step) ≡ stated", n))
 	return out
+}
+
+// AppendedValues: for `append(s, v1, v2…)` (variadic form) the values v_i.
+func (fc *FC) AppendedValues(c *ssa.Call) []*RF {
+	if len(c.Call.Args) < 2 {
+		return nil
+	}
+	sl, ok := c.Call.Args[1].(*ssa.Slice)
+	if !ok {
+		return nil
+	}
+	al, ok := sl.X.(*ssa.Alloc)
+	if !ok {
+		return nil
+	}
+	var out []*RF
+	for _, ref := range *al.Referrers() {
+		ia, ok := ref.(*ssa.IndexAddr)
+		if !ok {
+			continue
+		}
+		for _, r2 := range *ia.Referrers() {
+			if st, ok := r2.(*ssa.Store); ok && st.Addr == ia {
+				out = append(out, fc.Val(st.Val))
+			}
+		}
+	}
+	return out
+}
+
+// IfsMentioning lists reachable If instructions whose condition mentions an atom with the given name.
+func (fc *FC) IfsMentioning(atomName string) []*ssa.If {
+	var out []*ssa.If
+	fc.Ctx.Instrs(func(in ssa.Instruction) {
+		if ifi, ok := in.(*ssa.If); ok {
+			for _, a := range fc.Val(ifi.Cond).Atoms(true) {
+				if a.Name == atomName {
+					out = append(out, ifi)
+					return
+				}
+			}
+		}
+	})
+	return out
+}
+
+// blockOf: block containing the (unique) store to field `field` of a literal of type typeName.
+func (fc *FC) blockOfLit(typeName string) *ssa.BasicBlock {
+	var blk *ssa.BasicBlock
+	fc.Ctx.Instrs(func(in ssa.Instruction) {
+		if al, ok := in.(*ssa.Alloc); ok {
+			if fc.X.typeName(al.Type().Underlying().(*types.Pointer).Elem()) == typeName {
+				blk = al.Block()
+			}
+		}
+	})
+	if blk == nil {
+		anchorFail("%s: no literal of type %s", fc.X.W.FuncName(fc.Fn), typeName)
+	}
+	return blk
 }
